@@ -60,14 +60,19 @@ namespace rkcommon {
         {
           TASK_T t;
 
-          LocalTask(TASK_T &&fcn) : Task(1), t(std::forward<TASK_T>(fcn)) {}
+          LocalTask(TASK_T &&fcn) : Task(1), t(std::forward<TASK_T>(fcn))
+          {
+            // nobody waits on this task: the scheduler deletes it once it is
+            // done with it (deleting it here, inside ExecuteRange, would leave
+            // the scheduler updating a freed object)
+            m_DeleteOnCompletion = true;
+          }
 
           ~LocalTask() override = default;
 
           void ExecuteRange(enki::TaskSetPartition, uint32_t) override
           {
             t();
-            delete this;
           }
         };
 
